@@ -149,12 +149,14 @@ pub fn main(args: &[String], w: &mut dyn Write) {
         }
         if i % 8 == 7 {
             // what RegexRule::make turns an arbitrary expression into before the crate sees it (unmake returns the prepared expression)
-            let e = rand_str(&mut r, &['a', 'b', '\\', '{', '}', '[', ']', '<', '>', '1', '2', ',', '(', ')', '|', '.', '*', '+', '?', '^', '-', '#', '_', ' '], 10);
-            let e = if r.chance(1, 8) { r.pick(&["a<<<<3>>>>", "<<<<x>>>>b", "x<<<<1,2>>>>", "\\{3}", "a{1{2}", "\\\\{2}", "<<<<>>>>", "a{2}<<<<3>>>>{x}", "a{3,}", "a{,3}", "b{2,}{", "\\{1,}", "a{1,}{2,3}{,}"]).to_string() } else { e };
+            let e = rand_str(&mut r, &['a', 'b', 'p', 'x', '\\', '{', '}', '[', ']', '<', '>', '1', '2', ',', '(', ')', '|', '.', '*', '+', '?', '^', '-', '#', '_', ' '], 10);
+            let e = if r.chance(1, 8) { r.pick(&["a<<<<3>>>>", "<<<<x>>>>b", "x<<<<1,2>>>>", "\\{3}", "a{1{2}", "\\\\{2}", "<<<<>>>>", "a{2}<<<<3>>>>{x}", "a{3,}", "a{,3}", "b{2,}{", "\\{1,}", "a{1,}{2,3}{,}", "\\p{L}+", "\\P{Greek}a{x}", "\\x{1F600}", "\\u{41}{2}", "\\p{L", "\\d{x}", "a\\p{L}{b}"]).to_string() } else { e };
             if e.ends_with(' ') { continue; }
             let res = match std::panic::catch_unwind(std::panic::AssertUnwindSafe(|| mk.parse(&format!("{} (regex)", e)).map(|x| x.unmake()))) {
                 Err(_) => "panic".to_string(), Ok(Err(_)) => "err".into(), Ok(Ok((_, b, _, _))) => format!("x{}", hex(&b)) };
-            writeln!(w, "M z {}|{}", hex(e.as_bytes()), res).unwrap();
+            // does the regex crate take the expression as it is written (whole-line form)?
+            let as_written = regex::bytes::Regex::new(&format!("^(?:{})$", e)).is_ok();
+            writeln!(w, "M z {}|{}|{}", hex(e.as_bytes()), res, as_written as u8).unwrap();
             continue;
         }
         match i % 5 {
